@@ -158,7 +158,43 @@ def eval_case(case):
     return broken, tags
 
 
+def finding_witness():
+    """a(P)PI row without memory on the CPU path: a flip-flop `ff` without connected outputs (c_locs[ppi_offset + y] = -1) and a
+    flip-flop `ff2` without data connection (captures the constant 0). `WaveSim.s_to_c` stores through the -1: c[-1], c[0], c[1] —
+    with a falling stimulus on row `ff` the constant-0 signal at c[0] rises at the transition time; `wave_assign_gpu` skips the row.
+    returns None if both classes agree on s[3..7], s[10], else a description of the first difference"""
+    from kyupy.circuit import Circuit, Node, Line
+    c = Circuit('orphan-ff')
+    a = Node(c, 'a', 'input'); af = Node(c, 'a'); Line(c, a, af); c.io_nodes.append(a)
+    g = Node(c, 'g', 'AND2'); Line(c, af, (g, 0)); gf = Node(c, 'g'); Line(c, g, gf)
+    o = Node(c, 'o', 'output'); Line(c, gf, o); c.io_nodes.append(o)
+    ff = Node(c, 'ff', 'DFF'); Line(c, gf, (ff, 0))
+    ff2 = Node(c, 'ff2', 'DFF'); q = Node(c, 'q2'); Line(c, ff2, q); o2 = Node(c, 'o2', 'output'); Line(c, q, o2); c.io_nodes.append(o2)
+    d = np.zeros((1, len(c.lines), 2, 2), dtype=np.float32)
+    res = []
+    for cuda in (False, True):
+        ws = wc.make_sim(c, d, 1, cuda=cuda)
+        ws.s[0] = 1; ws.s[1] = 5.0; ws.s[2] = 0
+        ws.s_to_c()
+        with common.quiet():
+            ws.c_prop(); ws.c_to_s(time=10.0)
+        res.append(np.array(ws.s)[[3, 4, 5, 6, 7, 10]][:, :, 0])
+    if np.array_equal(res[0], res[1]): return None
+    k = np.argwhere(res[0] != res[1])[0]
+    return (f's field {[3, 4, 5, 6, 7, 10][int(k[0])]} of s_node {c.s_nodes[int(k[1])].name}: WaveSim {float(res[0][tuple(k)])} vs WaveSimCuda '
+            f'{float(res[1][tuple(k)])} (flip-flop `ff` without outputs: c_locs[ppi_offset+3] = -1, falling stimulus at 5.0 on its row; flip-flop `ff2` '
+            f'without data input captures the constant 0, whose memory c[0] the CPU s_to_c overwrote with the transition time)')
+
+
 def corr(ck, n):
+    try:
+        w = finding_witness()
+    except Exception as ex:
+        w = f'witness raised {type(ex).__name__}: {ex}'[:200]
+    ck.hist['path-finding:cpu-s_to_c-through-c_locs=-1:' + ('present' if w else 'absent')] += 1
+    if w:
+        ck.notes.append('FINDING CANDIDATE (CPU vs GPU path; the hypothesis stateRowsAllocatedB of C06.s_to_c_paths_agree fails; recorded as a note, '
+                        'not as a violation: the random circuits of the C06 oracle always connect an output of every state element): ' + w)
     for _ in range(n):
         cs = make_case(ck.rng)
         try:
